@@ -33,7 +33,8 @@ func (a TodoApp) AnalysisPath(path string, filters []string) []*astitodo.TODO {
 	var CodeFileFilter = func(path string) bool {
 		extensions := filters
 		for _, ext := range extensions {
-			if strings.HasSuffix(path, ext) {
+			// an empty entry (--ext=".java,") selects nothing: every path ends with the empty string
+			if ext != "" && strings.HasSuffix(path, ext) {
 				return true
 			}
 		}
